@@ -116,17 +116,10 @@ func (k Keeper) ReturnSlashedTokens(ctx context.Context, amt math.Int, hashId []
 			// convert args needed for calculations to legacy decimals
 			shareAmt = shareAmt.Quo(math.LegacyNewDecFromInt(snapshot.Total)).Mul(math.LegacyNewDecFromInt(amt))
 		}
-		// set token source to bonded if validator is bonded
-		// if not, set to unbonded
-		// this causes the delegate method (in staking module) to not transfer tokens since tokens
-		// are transferred via dispute module where ReturnSlashedTokens is called
-		var tokenSrc stakingtypes.BondStatus
-		if val.IsBonded() {
-			tokenSrc = stakingtypes.Bonded
-		} else {
-			tokenSrc = stakingtypes.Unbonded
-		}
-		_, err = k.stakingKeeper.Delegate(ctx, delAddr, shareAmt.TruncateInt(), tokenSrc, val, false) // false means to not subtract tokens from an account
+		// the dispute module, where ReturnSlashedTokens is called, sends the returned tokens to the bonded pool, so
+		// that pool is the token source: for a bonded validator the delegate method (in staking module) then moves
+		// nothing, for a validator that is not bonded it moves the tokens on to the not bonded pool
+		_, err = k.stakingKeeper.Delegate(ctx, delAddr, shareAmt.TruncateInt(), stakingtypes.Bonded, val, false) // false means to not subtract tokens from an account
 		if err != nil {
 			return err
 		}
